@@ -39,6 +39,21 @@ def lin(e):
         return lin(("bin", "Add", e[2][0], e[2][1]))
     if k == "call" and e[1].split("::")[-1] in ("wrapping_sub", "unchecked_sub") and len(e[2]) == 2:
         return lin(("bin", "Sub", e[2][0], e[2][1]))
+    # a checked sum / difference / product whose failure leaves the function (`a.checked_add(b).ok_or(E)?`, `.unwrap()`,
+    # `.expect(..)`): on the path that continues, the value is the plain result
+    if k == "field" and str(e[2]) == "0" and isinstance(e[1], tuple) and e[1][0] == "as" and e[1][2] in ("Continue", "Some", "Ok"):
+        inner = e[1][1]
+        if isinstance(inner, tuple) and inner[0] == "call" and inner[1].endswith("::branch") and len(inner[2]) == 1:
+            inner = inner[2][0]
+        for _ in range(2):
+            if isinstance(inner, tuple) and inner[0] == "call" and inner[1].split("::")[-1] in ("ok_or", "ok_or_else") and inner[2]:
+                inner = inner[2][0]
+        if isinstance(inner, tuple) and inner[0] == "call" and inner[1].split("::")[-1] in ("checked_add", "checked_sub", "checked_mul") and len(inner[2]) == 2:
+            op = {"checked_add": "Add", "checked_sub": "Sub", "checked_mul": "Mul"}[inner[1].split("::")[-1]]
+            return lin(("bin", op, inner[2][0], inner[2][1]))
+    if k == "call" and e[1].split("::")[-1] in ("unwrap", "expect") and e[2] and isinstance(e[2][0], tuple) and e[2][0][0] == "call" and e[2][0][1].split("::")[-1] in ("checked_add", "checked_sub", "checked_mul") and len(e[2][0][2]) == 2:
+        op = {"checked_add": "Add", "checked_sub": "Sub", "checked_mul": "Mul"}[e[2][0][1].split("::")[-1]]
+        return lin(("bin", op, e[2][0][2][0], e[2][0][2][1]))
     return ({sh(e): 1}, 0)
 
 
